@@ -161,3 +161,22 @@ def path_guard_balance(F, f):
         for c in pushes:
             ok = must_pass(cfg, c, through)
             yield c, p['n'], ok, '%d pop_back, %d failure returns' % (len(pops), len(fails))
+
+
+def history_discipline(F, f):
+    """For a (non-const) History parameter on which f pushes an epoch: every path from the push to the exit pops it, or leaves through an
+    early `return <bool literal>` (error exit).  Yields (push node, parameter name, ok, detail).  A function that pushes and never pops
+    yields ok=False."""
+    from issues import must_pass
+    hp = [p for p in f.params if 'History' in p['t'] and 'HistoryEpoch' not in p['t'].replace('std::vector<std::shared_ptr<libcellml::HistoryEpoch>>', '') and p['t'].rstrip().endswith('&') and not p['t'].startswith('const ')]
+    hp += [p for p in f.params if 'std::vector<std::shared_ptr<libcellml::HistoryEpoch>>' in p['t'] and p['t'].rstrip().endswith('&') and not p['t'].startswith('const ') and p not in hp]
+    for p in hp:
+        pushes = [c for c in f.walk() if c.get('k') == 'Call' and c.get('mc') and c.get('fn') in ('push_back', 'emplace_back') and c['c'][0].get('k') == 'Ref' and c['c'][0].get('d') == p['d']]
+        pops = [c for c in f.walk() if c.get('k') == 'Call' and c.get('mc') and c.get('fn') == 'pop_back' and c['c'][0].get('k') == 'Ref' and c['c'][0].get('d') == p['d']]
+        if not pushes:
+            continue
+        early = [r for r in f.walk() if r.get('k') == 'Return' and r.get('c') and r['c'][0].get('k') == 'Bool']
+        cfg = f.cfg()
+        for c in pushes:
+            ok = bool(pops) and must_pass(cfg, c, [x['i'] for x in pops] + [x['i'] for x in early])
+            yield c, p['n'], ok, '%d pop_back, %d literal returns' % (len(pops), len(early))
